@@ -536,7 +536,8 @@ def run_unit(unit_name, tier, seed, workdir=None):
                         hn0 = owner[len('helper::'):]
                         info0 = helpers.pop(hn0)
                         rejected.add(hn0)
-                        if info0.get('inline') and hn0 not in inlines:
+                        if info0.get('inline') and hn0 not in inlines and not info0['inline']['has_self']:
+                            # (methods are not inlined: a call `x.h()` cannot be told from a std method of the same name)
                             # its body is not spec-able: substitute the body for the calls instead (second form of R4h)
                             inlines[hn0] = info0['inline']
                         added = True
